@@ -109,6 +109,8 @@ func (s *sys) Reset() error {
 
 var dumpOpts = fsx.DumpOpts{}
 
+const cwdGone = "<current directory removed>"
+
 // observe dumps both sides, records the current attribute differences and the
 // state key (kernel side).
 func (s *sys) observe() (kd, vd []string, cwdK, cwdV string) {
@@ -126,8 +128,14 @@ func (s *sys) observe() (kd, vd []string, cwdK, cwdV string) {
 		vd = []string{"!dump " + k + " " + msg}
 	}
 
-	cwdK, _ = s.k.Getwd()
 	cwdV, _ = s.v.Getwd()
+
+	var err error
+	if cwdK, err = s.k.Getwd(); err != nil {
+		// the current directory was removed: getcwd(2) fails, the emulation keeps
+		// the stale string. Not comparable; such states are not expanded.
+		cwdK = cwdGone
+	}
 
 	s.kdump = kd
 	s.key = strings.Join(kd, "\n") + "\ncwd=" + cwdK
@@ -428,7 +436,9 @@ func (s *sys) Step(op int) bfs.StepResult {
 	kd, vd, cwdK, cwdV := s.observe()
 
 	diffs, structural := treeDiff(kd, vd, ti, s.R)
-	if cwdK != cwdV {
+	if cwdK == cwdGone {
+		structural = true
+	} else if cwdK != cwdV {
 		diffs = append(diffs, "cwd")
 		structural = true
 	}
